@@ -47,6 +47,11 @@ BIASED_HAND = [
     'r = { (PUSH(a?) ~ "!")? ~ "." }\nr2 = { (&(a?) ~ "!")? ~ "." }\nr3 = { &(a?) ~ "!" | b }\nr4 = { (PUSH(&(a?))? ~ "!")* ~ (PUSH(a*))? }\na = { "a" }\nb = { "b" }',
     # a name shared by alternatives of different sizes (join order), no common prefix
     'r = { "a" ~ x | "b" ~ x ~ y }\ns = { "a" ~ x | "b" ~ y ~ x | "c" ~ x ~ y ~ z }\nt = { ("a" ~ x ~ y ~ z | "b" ~ y | "c" ~ z ~ x)* }\nx = { "x" }\ny = { "y" }\nz = { "z" }',
+    # binary sequences / choices only: the optimized and the un-optimized AST coincide, so the two accessor builders are compared code
+    # against code on them (raw_getters_same), slot by slot
+    'signed = { x ~ "+" | "-" ~ x }\neither = { x ~ y | y ~ x }\ngroup = { "(" ~ (x ~ "!" | "?" ~ x) ~ ")" }\nx = { "a" | "b" }\ny = { "1" }',
+    'pair = { x ~ x }\nmixed = { (x ~ y) ~ (x ~ y) }\nahead = { &x ~ x }\npushed = { PUSH(x) ~ x }\nx = { "a" | "k" | "v" }\ny = { "1" | "2" }',
+    'r = { (x ~ y | y)* ~ (x | y ~ x)? }\nx = { "a" }\ny = { "b" }',
 ]
 
 NAMES_POOL = ["a", "b", "c"]
